@@ -43,10 +43,27 @@ pub fn generate(thorough: bool, seed: u64, em: &mut Emitter) {
             em.case("verify", case);
         } else {
             // a presentation the library's holder derives from the foreign token
+            // one foreign token in three is bound to a holder key: the key-binding JWT the library's holder attaches
+            // must commit to the presentation under the digest algorithm the token declares (any of the three)
+            let bound = i % 6 == 1;
+            let mut clear = claims.clone();
+            if bound {
+                let jwk = crate::keys::rsa_jwk();
+                tok.payload = crate::refissuer::with_member(tok.payload.clone(), "cnf", jwk.clone());
+                clear = crate::refissuer::with_member(clear, "cnf", jwk);
+            }
             let jwt = sign_hs256(&tok.payload);
             let token = presentation_string(&jwt, &list, "");
             let redact = redaction_set(r, &claims, &marks);
-            let mut case = present_case(&tok, &token, &claims, &redact, Value::Null, 1, json!({"kbpol": Value::Null}));
+            let (kb, verifier) = if bound {
+                (json!({"aud": "https://verifier.example", "alg": "RS256"}), json!({"kbpol": {"alg": "RS256", "aud": "https://verifier.example"}}))
+            } else {
+                (Value::Null, json!({"kbpol": Value::Null}))
+            };
+            let mut case = present_case(&tok, &token, &clear, &redact, kb, 1, verifier);
+            if bound {
+                case["tag"] = json!("foreign_bound_token");
+            }
             case["ref_check"] = json!(true);
             case["judge_disclosures"] = json!(true);
             case["nontrivial"] = json!(true);
